@@ -16,6 +16,7 @@ type Obligation struct {
 	Kind      string
 	Func      string
 	Pos       int  // number of assertion lines visible to this obligation
+	Cut       int  // quantified lines before this one are left out ("loop N isolate")
 	Reach     Term // path condition of the program point
 	Goal      Term
 	Where     string
@@ -49,6 +50,7 @@ type VC struct {
 	globals     map[string]Term
 	lateDecls   []string
 	noDefine    bool
+	curCut      int // see "loop N isolate": quantified lines before this line are not shown to obligations created now
 	mulCache    map[string]mulDef
 	defCache    map[string]Term
 	factCache   map[string]bool
@@ -141,7 +143,7 @@ func (vc *VC) oblige(kind, name string, reach, goal Term, where string) *Obligat
 	if n := vc.oblNames[full]; n > 1 {
 		full = fmt.Sprintf("%s#%d", full, n)
 	}
-	o := &Obligation{Name: full, Kind: kind, Func: vc.FuncName, Pos: len(vc.lines), Reach: reach, Goal: goal, Where: where}
+	o := &Obligation{Name: full, Kind: kind, Func: vc.FuncName, Pos: len(vc.lines), Cut: vc.curCut, Reach: reach, Goal: goal, Where: where}
 	vc.Obls = append(vc.Obls, o)
 	return o
 }
